@@ -209,6 +209,8 @@ def gen_grid_triangle(rng, k, for_matrix):
         y = years[(k // 3) % len(years)]
         s0 = (y - 1970) * 12 + 1 - rng.randint(0, 3) * rp - rng.randint(0, rp - 1)
     s0 -= s0 % rp if rng.random() < 0.7 else 0
+    if not for_matrix and s0 < 12:
+        s0 += 60       # array frames stay at 1970 or later: before that array.py trips F10 (known finding F10c, probed separately)
     npd = rng.randint(1, 4)
     starts, cur = [], s0
     for _ in range(npd):
